@@ -9,7 +9,6 @@ import (
 
 	"github.com/matrix-org/gomatrixserverlib/spec"
 	"github.com/tidwall/gjson"
-	"github.com/tidwall/sjson"
 	"golang.org/x/crypto/ed25519"
 )
 
@@ -147,7 +146,7 @@ func newEventFromUntrustedJSONV2(eventJSON []byte, roomVersion IRoomVersion) (PD
 	// Synapse removes these keys from events in case a server accidentally added them.
 	// https://github.com/matrix-org/synapse/blob/v0.18.5/synapse/crypto/event_signing.py#L57-L62
 	for _, key := range []string{"outlier", "destinations", "age_ts", "unsigned", "event_id"} {
-		if eventJSON, err = sjson.DeleteBytes(eventJSON, key); err != nil {
+		if eventJSON, err = deleteTopLevelKey(eventJSON, key); err != nil {
 			return nil, err
 		}
 	}
